@@ -71,7 +71,10 @@ SameLenHead(d, n) == \E i \in 1..Len(pend) : pend[i].dir = d /\ pend[i].n = n /\
 Step(e) ==
   /\ res' = Ref(e)
   /\ CASE e.op = "reset" ->
-        /\ key' = Bytes(e.key) /\ max' = e.max /\ pend' = <<>> /\ done' = {} /\ nonces' = {} /\ closing' = {} /\ later' = {}
+        \* keep = 1: the same real manager connects again under the same key -- the nonces it used so far stay used
+        /\ key' = Bytes(e.key) /\ max' = e.max /\ pend' = <<>> /\ done' = {}
+        /\ nonces' = IF "keep" \in DOMAIN e /\ e.keep = 1 /\ Bytes(e.key) = key THEN nonces ELSE {}
+        /\ closing' = {} /\ later' = {}
         /\ ooo' = FALSE /\ poisoned' = FALSE /\ stats' = Inc(stats, "behaviours", 1)
         /\ UNCHANGED viol      \* a session that does not come up is not C14's business (the driver reports it)
     [] e.op = "send" ->
